@@ -437,8 +437,16 @@ class SV:
     def sqrt(self):
         if not ENG.branch(self.e >= 0):
             raise PathAbort('sqrt of negative')
+        # sqrt is a function: the same argument term (z3 terms are hash-consed) on the same path gets the same symbol
+        memo = getattr(ENG, 'sqrt_memo', None)
+        if memo is None:
+            memo = ENG.sqrt_memo = {}
+        k = self.e.get_id()
+        if k in memo:
+            return SV(memo[k][1])
         y = ENG.fresh_real('sqrt')
         ENG.assume(z3.And(y >= 0, y * y == self.e))
+        memo[k] = (self.e, y)
         return SV(y)
 
     def exp(self):
@@ -568,6 +576,17 @@ class SC:
         except TypeError:
             return NotImplemented
         return SC(r, i) / self
+
+    # transcendental functions of a complex argument through the real uninterpreted functions exp, cos, sin, cosh, sinh
+    def exp(self):
+        e = _uf('exp')(self.re)
+        return SC(e * _uf('cos')(self.im), e * _uf('sin')(self.im))
+
+    def cosh(self):
+        return SC(_uf('cosh')(self.re) * _uf('cos')(self.im), _uf('sinh')(self.re) * _uf('sin')(self.im))
+
+    def sinh(self):
+        return SC(_uf('sinh')(self.re) * _uf('cos')(self.im), _uf('cosh')(self.re) * _uf('sin')(self.im))
 
     def __pow__(self, k):
         if isinstance(k, (int, np.integer)) and int(k) >= 0:
